@@ -186,7 +186,8 @@ pub fn generate(prop: Prop, seed: u64, run: u64, thorough: bool) -> RunSpec {
         }
     }
     let zst = spec.cfg.elem.is_zst();
-    if prop == Prop::C05 && !zst && spec.mode.is_none() && rng.chance(1, 8) {
+    let zst_drop = spec.cfg.elem == elems::ElemClass::ZstDrop;
+    if prop == Prop::C05 && (!zst || zst_drop) && spec.mode.is_none() && rng.chance(if zst_drop { 3 } else { 1 }, 8) {
         // logic-error keys: inconsistent Hash / Eq; only memory safety is judged
         spec.cfg.chaos = Some(rng.next_u64());
         spec.faults.clear();
